@@ -8,5 +8,5 @@ export CARGO_NET_OFFLINE=true
 command -v cargo-kani >/dev/null
 command -v python3 >/dev/null
 mkdir -p .work evidence replays
-python3 lib/mkmanifest.py >/dev/null 2>&1 || true
+python3 -c "import json; json.load(open('MANIFEST.json'))"
 echo "setup ok: $(cargo kani --version 2>/dev/null | head -1)"
